@@ -92,7 +92,11 @@ TAdd ==
          accept == IF dontcare THEN E.res = "ok" ELSE legal
          new == PartTabs(E.parts, NextIndex(tabs), nextTab)
          plain == tabs \o new
-         ownRes == IF stale THEN "lock" ELSE IF ~accept THEN "rejected" ELSE "ok"
+         \* a transaction prepared for an update index that is no longer the next one (the caller computed it before
+         \* its handle was refreshed) must fail like a stale one: update indices only grow
+         \* (a transaction without records returns before the index is looked at and commits nothing)
+         lowidx == "idx" \in DOMAIN E /\ E.idx < NextIndex(tabs) /\ PartTabs(E.parts, NextIndex(tabs), nextTab) # <<>>
+         ownRes == IF stale \/ lowidx THEN "lock" ELSE IF ~accept THEN "rejected" ELSE "ok"
          \* a transaction executed by the OTHER implementation (C15): the specification follows its outcome, so that
          \* the state both sides agree on is the state the final view is compared with; a disagreement about
          \* acceptance is recorded separately
@@ -107,7 +111,7 @@ TAdd ==
      /\ tabs' = after
      /\ nextTab' = nextTab + Len(new) + 1
      /\ loaded' = [loaded EXCEPT ![h] = IF expRes = "ok" \/ (expRes = "lock" /\ ~E.multi) THEN after ELSE @]
-     /\ fails' = Cmp(E.res, IF foreign THEN E.res ELSE expRes, IF stale THEN "C09_StaleAddMustFail" ELSE IF ~accept \/ E.res = "rejected" THEN "C12_AcceptIffLegal" ELSE "C04_AddResult")
+     /\ fails' = Cmp(E.res, IF foreign THEN E.res ELSE expRes, IF stale \/ lowidx THEN "C09_StaleAddMustFail" ELSE IF ~accept \/ E.res = "rejected" THEN "C12_AcceptIffLegal" ELSE "C04_AddResult")
           \cup (IF foreign THEN Cmp(E.res, ownRes, "C15_AcceptAgree") ELSE {})
           \cup Cmp(E.dirshape, Shape(after), IF expRes = "ok" THEN (IF E.auto THEN "C17_AutoCompactRange" ELSE "C04_StackAfterAdd") ELSE "C09_DirUnchanged")
           \cup Fail(E.res # "ok" \/ ~E.namecheck \/ ~Conflict(LiveNames(after)), "C12_NoConflict")
